@@ -850,6 +850,10 @@ fn reads_strategy(focus: Focus) -> BoxedStrategy<Vec<ReadSpec>> {
         Focus::C01 | Focus::C02 => prop_oneof![
             8 => Just(vec![ReadSpec { size: None, time_ns: None }]),
             1 => Just(vec![ReadSpec { size: Some(1 << 30), time_ns: None }]),
+            // the exchange carried out in several size-limited reads is still one exchange:
+            // it must terminate (C01) and the pieces together are what the child wrote (C02)
+            2 => prop::collection::vec(prop_oneof![Just(1u32), Just(4096u32), Just(8192u32), Just(12288u32), 1u32..70000], 1..6)
+                .prop_map(|v| v.into_iter().map(|s| ReadSpec { size: Some(s), time_ns: None }).collect()),
         ]
         .boxed(),
         Focus::C03 => {
